@@ -2308,6 +2308,9 @@ class ConvertPythonInstance:
         _on_register_inline_entity(self._register_inline_handler)
 
         self._entity_infos = []
+
+        # function definitions that were captured before this compilation started
+        self._known_definitions = set(FunctionDefinition._known_definitions)
         return self
 
     def __exit__(self, *args):
@@ -2327,6 +2330,18 @@ class ConvertPythonInstance:
             # this is done so future compilations do not contain cached results
             # from the current run
             info._discard_instantiation()
+
+        # Function definitions capture the values of the global and nonlocal
+        # names they use. Remove the definitions cached during this compilation
+        # so future compilations do not observe outdated values.
+        # (coroutine objects are never reused, their definitions are kept
+        # to keep the coroutines alive)
+        for definition_id, (_, captured) in list(
+            FunctionDefinition._known_definitions.items()
+        ):
+            if definition_id not in self._known_definitions:
+                if not inspect.iscoroutine(captured):
+                    del FunctionDefinition._known_definitions[definition_id]
 
     def apply(self, inp):
         assert (
